@@ -127,6 +127,34 @@ def case_eigh(T, n, fnames, algs, positive=True, declared="PSD"):
             _guard(T, tag, lambda: _observe(T, tag, call(fname, Aop, alg), want, dt))
 
 
+def case_eig_degenerate(T, fnames, algs, declared):
+    """a symmetric matrix with a repeated eigenvalue, A = a (I - p p^T) + b p p^T, sent through the GENERAL eigensolver: LAPACK's geev returns
+    unit-norm eigenvectors but does not orthogonalise inside a degenerate eigenspace, so the stand-in hands back a (legitimate) basis
+    P = [u1, (3 u1 + 4 u2) / 5, p] that is not orthogonal; P^-1 != P^T"""
+    from fractions import Fraction as F
+    dt = 'float64'
+    cols = [[F(2, 3), F(1, 3), F(-2, 3)], [F(2, 3), F(-2, 3), F(1, 3)], [F(1, 3), F(2, 3), F(2, 3)]]
+    u1, u2, pp = cols
+    p2 = [(3 * x + 4 * y) / 5 for x, y in zip(u1, u2)]
+    P = K.mat(T, [[K.cst(T, c[i]) for c in (u1, p2, pp)] for i in range(3)], dt)
+    Pinv = K.arr(T, K.raw(T, K.exact_solve(T, P, K.eye_like(T, 3, dt))), dt)
+    a, b = T.var("a", positive=True), T.var("b", positive=True)
+    w = [a, a, b]
+    z = K.S(T, 0)
+    A = P @ K.mat(T, [[w[i] if i == j else z for j in range(3)] for i in range(3)], dt) @ Pinv
+    if T.sym:
+        from symx import lapack
+        lapack.register("eig", K.raw(T, A), (K.raw(T, K.mat(T, [w], dt))[0], K.raw(T, P)))
+    Aop = getattr(cola, declared)(ops.Dense(A)) if declared else ops.Dense(A)
+    U = _un()
+    for fname in fnames:
+        for an in algs:
+            alg = {"default": None, "Auto": cola.linalg.Auto(), "Eig": U.Eig()}[an]
+            tag = f"{fname}({an})"
+            want = P @ _diagf(T, fname, w, dt) @ Pinv
+            _guard(T, tag, lambda: _observe(T, tag, call(fname, Aop, alg), want, dt))
+
+
 def case_eig(T, fnames, algs, complex_pair=False):
     """general (non-symmetric) A = P diag(w) P^-1 with a concrete invertible P"""
     dt = 'float64'
@@ -362,6 +390,9 @@ def cases(tier, seed):
     out.append(("eigh:n2-singular-psd-exp", case_eigh, dict(n=2, fnames=["exp"], algs=["default"], positive=False, declared="PSD")))
     out.append(("eigh:n2-selfadjoint-auto-goes-eig", case_eigh, dict(n=2, fnames=["exp", "pow0.5s"], algs=["default", "Eigh"], declared="SelfAdjoint")))
     out.append(("eig:n2", case_eig, dict(fnames=FN, algs=["default", "Auto", "Eig"])))
+    out.append(("eig:degenerate-selfadjoint", case_eig_degenerate, dict(fnames=["exp", "pow0.5s", "log", "pow2"], algs=["default", "Eig"], declared="SelfAdjoint")))
+    out.append(("eig:degenerate-psd-explicit-eig", case_eig_degenerate, dict(fnames=["exp", "pow-0.5s"], algs=["Eig"], declared="PSD")))
+    out.append(("eig:degenerate-undeclared", case_eig_degenerate, dict(fnames=["exp", "pow0.5s"], algs=["default", "Eig"], declared=None)))
     for kind in ("diag", "scalar", "identity", "blockdiag", "transpose", "adjoint"):
         out.append((f"rule:{kind}", case_structural, dict(kind=kind, fnames=["exp", "log", "pow0.5s", "pow-0.5s", "pow2.5"])))
     out.append(("rule:kronsum-exp", case_structural, dict(kind="kronsum", fnames=["exp"])))
